@@ -11,7 +11,7 @@ DETECT = {
  'C03-2': 'C03: crysp.des.TDEA/roundtrip/form=1x24|k1,k2,k3 clause identity (also C02 TDEA/post dir=dec)',
  'C04-1': 'C04: crysp.keccak.Keccak.__call__/bounded clause per-call-rate/output',
  'C04-2': 'C04: crysp.keccak.Keccak.__call__/bounded (rates not a multiple of 8, output longer than the rate) clause output',
- 'C05-1': 'C05: CTR/post and DefaultCounter/post (counter wrap)',
+ 'C05-1': 'C05: CTR/post bs=8|16, n>=2 blocks clause ciphertext (solver model replayed)',
  'C05-2': 'C05: ECB-CBC/post pad=X923, aligned message',
  'C06-1': 'C06: core/post/kind=*,dr=odd clause core',
  'C06-2': 'C06: RC4.enc/continuity clause stream/state',
@@ -19,18 +19,18 @@ DETECT = {
  'C07-2': 'C07: crysp.bits.Bits.__init__/int-list-bits clause bit(-n)',
  'C08-1': 'C08: crysp.bits.Bits.__setitem__/select kind=short clause rhs/operand-unchanged (check strengthened for this seed)',
  'C08-2': 'C08: crysp.bits.Bits.extend clause zeroextend/mask and then-invert',
- 'C09-1': 'C09/C01: lastblock boundary (SHA) - same mechanism as C01-1',
+ 'C09-1': 'C09: hash-paddings/iterblocks kind=SHA512|SHA1024 r=7 and hash-paddings/lastblock/boundary p=56|112 r=7 (check strengthened for this seed: C09 had left the MD/SHA/BLAKE paddings to C01/C11); also C01 lastblock/boundary',
  'C09-2': 'C09: iterblocks/continuation clause per-block bitcnt',
  'C10-1': 'C10: havoc/blake2 clause digest; C11 Blake2.__call__/bounded clause defaults',
  'C10-2': 'C10: history/enumeration/kind=AES-created-after-siblings (check strengthened for this seed: forked histories, object created after its siblings)',
  'C11-1': 'C11: Blakepadding.lastblock/boundary p=56|112 r=6',
- 'C11-2': 'C11: Blake2.update/one-block=compress/size=512 - solver undecided, native falsification search finds a counter >= 2^32 (check strengthened for this seed)',
+ 'C11-2': 'C11: Blake2.update/one-block=compress/size=512,final=0|1 clause state (check strengthened for this seed: native falsification search with boundary plans when the solver is undecided)',
  'C12-1': 'C12: Skein.tree/bounded shape=1,2,3',
  'C12-2': 'C12: Skein.__call__/bounded clause bitlen=5',
  'C13-1': 'C13: crysp.hmac.HMAC/post klen==block and library-hashes klen=block',
  'C13-2': 'C13: crysp.hmac.HMAC/post clause rekeyed',
  'C14-1': 'C14: update/piecewise==one-shot; C09 iterblocks/continuation',
- 'C14-2': 'C14: update/piecewise==one-shot (BLAKE family)',
+ 'C14-2': 'C14: update/piecewise==one-shot (BLAKE family, 42 instances; concrete probe of the obligation body before the solvers, added for this seed because the 48 MB goal took the solvers 400 s to give up on)',
  'C15-1': 'C15: crc_table/sequence (check strengthened for this seed)',
  'C15-2': 'C15: crc32_fix/bounded clause fix_pos<n-4>/target',
  'C16-1': 'C16: crysp.poly.SubPoly.binop/post/op=- clause coefficients',
@@ -47,7 +47,13 @@ DETECT = {
 REBASED = {'C01-2': '/tmp/rebase/C01_2.diff', 'C20-2': '/tmp/rebase/C20_2.diff'}
 out = '/verif/seeded'
 os.makedirs(out, exist_ok=True)
-for p in sorted(os.listdir('/tmp/wt')):
+if not os.path.isdir('/tmp/wt'):
+    # the sub-agents' worktrees are gone: only refresh the detection notes of the kept seeds
+    for sid in sorted(os.listdir(out)):
+        mp = os.path.join(out, sid, 'meta.json')
+        if os.path.exists(mp):
+            m = json.load(open(mp)); m['detected_by'] = DETECT.get(sid, m.get('detected_by')); json.dump(m, open(mp, 'w'), indent=1)
+for p in (sorted(os.listdir('/tmp/wt')) if os.path.isdir('/tmp/wt') else []):
     d = '/tmp/wt/%s/_seed' % p
     if not os.path.isdir(d): continue
     for k in sorted(os.listdir(d)):
